@@ -17,6 +17,7 @@ import multiprocessing
 import multiprocessing.connection
 import os
 import random
+import signal
 import sys
 import time
 import traceback
@@ -163,6 +164,14 @@ def _child(conn, mod_name, seeds, tier, opts):
         os._exit(0)
 
 
+class _RunTimeout(BaseException):
+    pass
+
+
+def _on_alarm(signum, frame):
+    raise _RunTimeout()
+
+
 def run_chunk(mod, seeds, tier, opts):
     """Run a list of seeds sequentially in this process and summarise."""
     res = {'runs': 0, 'events': 0, 'oracle_checks': 0, 'faults': collections.Counter(),
@@ -170,6 +179,7 @@ def run_chunk(mod, seeds, tier, opts):
            'nontrivial': set(), 'digests': {}, 'violation': None, 'samples': [], 'harness_error': None,
            'retired': False}
     want_digests = opts.get('digests', False)
+    signal.signal(signal.SIGALRM, _on_alarm)
     if hasattr(mod, 'set_full_global'):
         mod.set_full_global(opts.get('full_global', False))
     for pos, (base, idx) in enumerate(seeds):
@@ -180,7 +190,14 @@ def run_chunk(mod, seeds, tier, opts):
             break
         try:
             plan = mod.gen_plan(Sched(seed), idx, tier)
-            out = mod.execute(plan)
+            signal.setitimer(signal.ITIMER_REAL, opts.get('run_timeout', 120))
+            try:
+                out = mod.execute(plan)
+            finally:
+                signal.setitimer(signal.ITIMER_REAL, 0)
+        except _RunTimeout:
+            res['harness_error'] = f"run index {idx} (seed {seed}) exceeded {opts.get('run_timeout', 120)}s wall"
+            break
         except HarnessError:
             res['harness_error'] = f"seed {seed}: " + traceback.format_exc()
             break
